@@ -230,6 +230,12 @@ Definition IdentEq3000 (M M' : R3.molM) : Prop :=
    simple graphs) *)
 Definition loopfree3 (M : R3.molM) : Prop := forall u, ~ In (u, u) (pairs3 M).
 
+(* since the readers reject a bond from an atom to itself, R3.okM contains this condition (om_noloop):
+   the hypothesis [loopfree3 M] of the theorems below is implied by [R3.okM M] and is kept for the
+   statements' sake *)
+Lemma okM_loopfree3 M : R3.okM M -> loopfree3 M.
+Proof. intros HM. exact (R3.om_noloop _ HM). Qed.
+
 Lemma IdentEq3000_loopfree M M' : IdentEq3000 M M' -> loopfree3 M -> loopfree3 M'.
 Proof. intros [_ H] HL u Hu. apply (HL u). destruct (proj2 (H u u) (or_introl Hu)); assumption. Qed.
 
@@ -404,6 +410,13 @@ Definition IdentEq2000 (M M' : R2.mol2) : Prop :=
   map ident2 (R2.m_atoms M) = map ident2 (R2.m_atoms M') /\ same_pairs (pairs2 M) (pairs2 M').
 
 Definition loopfree2 (M : R2.mol2) : Prop := forall u, ~ In (u, u) (pairs2 M).
+
+(* likewise implied by R2.okM2000 (ok_bond: the two atom numbers of a bond line differ) *)
+Lemma okM2000_loopfree2 M : R2.okM2000 M -> loopfree2 M.
+Proof.
+  intros (_ & _ & _ & Hb & _) u Hu. unfold pairs2 in Hu. apply in_map_iff in Hu. destruct Hu as (b & E & Hin).
+  rewrite Forall_forall in Hb. destruct (Hb b Hin) as (_ & _ & _ & Hne). apply Hne. rewrite E. reflexivity.
+Qed.
 
 (* atom number -> node name *)
 Definition hz (u : Z) : N := Z.to_N (u - 1).
@@ -889,9 +902,10 @@ Module Example.
   Ltac okM_tac :=
     constructor;
     [ repeat (apply Forall_cons; [|]); try apply Forall_nil; cbn [entry_okM];
-      (constructor; [left; eexists; vm_compute; reflexivity|apply coord_tok_check; vm_compute; reflexivity..])
+      (constructor; [left; eexists; vm_compute; reflexivity|apply coord_tok_check; vm_compute; reflexivity..|cbn; lia])
     | repeat (apply Forall_cons; [|]); try apply Forall_nil; cbn [bond_okM]; split; eexists; reflexivity
-    | cbn; repeat (apply NoDup_cons; [cbn; intuition discriminate|]); apply NoDup_nil ].
+    | cbn; repeat (apply NoDup_cons; [cbn; intuition discriminate|]); apply NoDup_nil
+    | let u := fresh "u" in let H := fresh "H" in intros u H; cbn in H; intuition congruence ].
   Example formA_ok : okM formA. Proof. okM_tac. Qed.
   Example formB_ok : okM formB. Proof. okM_tac. Qed.
 
@@ -960,7 +974,8 @@ Module Example.
     - cbn [ch2 R2.c_items form2 R2.m_atoms length].
       repeat (apply Forall_cons || apply Forall_nil);
         try (vm_compute; reflexivity); try (vm_compute; repeat split; reflexivity);
-        (split; [cbn [length]; lia|repeat (apply Forall_cons || apply Forall_nil); split; unfold R2.in3; cbn [fst snd length]; lia]).
+        (split; [cbn [length]; lia|split; [repeat (apply Forall_cons || apply Forall_nil); split; unfold R2.in3; cbn [fst snd length]; lia|
+           cbn [R2.nonneg_kind]; try exact I; repeat (apply Forall_cons || apply Forall_nil); cbn [snd]; lia]]).
     - intros i a H. cbn [form2 R2.m_atoms enumerate_from In] in H. decompose [or] H; clear H;
         match goal with
         | E : (_, _) = (_, _) |- _ => inversion E; subst; clear E
